@@ -44,15 +44,15 @@ fn wait(result: CommandSendResult, deadline: Instant) -> bool {
 
 pub struct StressOutcome { pub rounds: usize, pub ops: usize, pub stall: Option<String> }
 
-pub fn run(seed: u64, rounds: usize, threads: usize, ops_per_thread: usize, timeout: Duration, reads_pct: u32,
+pub fn run(seed: u64, rounds: usize, threads: usize, ops_per_thread: usize, timeout: Duration, reads_pct: u32, shutdown_mid: bool,
            mut final_out: Option<&mut dyn std::io::Write>) -> StressOutcome {
     let mut total_ops = 0;
     for round in 0..rounds {
         let mut rng = StdRng::seed_from_u64(seed.wrapping_add(round as u64));
         let clock = StressClock(Arc::new(AtomicI64::new(1000)));
         let cache = Arc::new(CacheD::<u64, u64>::new(
-            ConfigBuilder::new(*[1u64, 4, 64].get(rng.gen_range(0..3)).unwrap(), 16, *[6i64, 20, 200].get(rng.gen_range(0..3)).unwrap())
-                .shards(2).command_buffer_size(*[1usize, 1, 2].get(rng.gen_range(0..3)).unwrap()).access_pool_size(1).access_buffer_size(*[1usize, 2, 8].get(round % 3).unwrap())
+            ConfigBuilder::new(*[1u64, 4, 64].get(rng.gen_range(0..3)).unwrap(), 16, if shutdown_mid { 1_000_000 } else { *[6i64, 20, 200].get(rng.gen_range(0..3)).unwrap() })
+                .shards(2).command_buffer_size(if shutdown_mid { *[2usize, 256, 8192].get(rng.gen_range(0..3)).unwrap() } else { *[1usize, 1, 2].get(rng.gen_range(0..3)).unwrap() }).access_pool_size(1).access_buffer_size(*[1usize, 2, 8].get(round % 3).unwrap())
                 .clock(Box::new(clock.clone())).ttl_tick_duration(Duration::from_millis(1))
                 .key_hash_fn(Box::new(|key: &u64| *key)).build()));
         let deadline = Instant::now() + timeout;
@@ -73,9 +73,12 @@ pub fn run(seed: u64, rounds: usize, threads: usize, ops_per_thread: usize, time
                 let mut rng = StdRng::seed_from_u64(thread_seed);
                 let mut ok = true;
                 for index in 0..ops_per_thread {
-                    let key = rng.gen_range(0..4u64);
+                    // (many keys in the rounds with a shutdown in the middle: clearing the structures then takes a while)
+                    let key = rng.gen_range(0..if shutdown_mid { 4096u64 } else { 4u64 });
                     let value = (thread * 100_000 + index) as u64;
-                    let roll = if rng.gen_range(0..100) < reads_pct { rng.gen_range(6..10) } else { rng.gen_range(0..10) };
+                    // (rounds with a shutdown in the middle: mostly weight-changing upserts, so that the worker is busy with queued
+                    //  commands while shutdown() clears the structures)
+                    let roll = if rng.gen_range(0..100) < reads_pct { rng.gen_range(6..10) } else if shutdown_mid && rng.gen_bool(0.6) { 4 } else { rng.gen_range(0..10) };
                     let result = match roll {
                         0 | 1 => Some(cache.put_with_weight(key, value, rng.gen_range(1..5))),
                         2 => Some(cache.put_with_weight_and_ttl(key, value, rng.gen_range(1..5), Duration::from_secs(rng.gen_range(1..4)))),
@@ -87,7 +90,8 @@ pub fn run(seed: u64, rounds: usize, threads: usize, ops_per_thread: usize, time
                         _ => { lookups.fetch_add(1, Ordering::SeqCst); let _ = cache.get(&key); None }
                     };
                     if let Some(result) = result {
-                        if rng.gen_bool(0.6) && !wait(result, deadline) { ok = false; break; }
+                        // (rounds with a shutdown in the middle let the queue grow: few acknowledgements are awaited)
+                        if rng.gen_bool(if shutdown_mid { 0.02 } else { 0.6 }) && !wait(result, deadline) { ok = false; break; }
                     }
                     done_ops.fetch_add(1, Ordering::SeqCst);
                 }
@@ -95,6 +99,18 @@ pub fn run(seed: u64, rounds: usize, threads: usize, ops_per_thread: usize, time
             });
         }
         drop(sender);
+        // shutdown() in the middle of the traffic (every other round): it must return, and so must every caller
+        let shutdown_done = if shutdown_mid && with_shutdown {
+            let (cache, done_ops) = (cache.clone(), done_ops.clone());
+            let after = rng.gen_range(0..(threads * ops_per_thread / 2).max(1));
+            let (done_sender, done_receiver) = mpsc::channel();
+            std::thread::spawn(move || {
+                while done_ops.load(Ordering::SeqCst) < after { std::thread::yield_now(); }
+                cache.shutdown();
+                let _ = done_sender.send(());
+            });
+            Some(done_receiver)
+        } else { None };
         let mut finished = 0;
         let mut pending_forever = false;
         while finished < threads {
@@ -105,11 +121,19 @@ pub fn run(seed: u64, rounds: usize, threads: usize, ops_per_thread: usize, time
         }
         stop.store(true, Ordering::SeqCst);
         total_ops += done_ops.load(Ordering::SeqCst);
+        if let Some(done) = &shutdown_done {
+            if done.recv_timeout(deadline.saturating_duration_since(Instant::now()) + Duration::from_millis(500)).is_err() {
+                return StressOutcome { rounds: round + 1, ops: total_ops, stall: Some(format!(
+                    "round {} (seed {}): shutdown() called in the middle of the traffic did not return within {:?} ({} of {} caller threads finished)",
+                    round, seed.wrapping_add(round as u64), timeout, finished, threads)) };
+            }
+        }
         if finished < threads || pending_forever {
             return StressOutcome { rounds: round + 1, ops: total_ops, stall: Some(format!(
                 "round {} (seed {}): {} of {} caller threads finished within {:?}{}", round, seed.wrapping_add(round as u64), finished, threads, timeout,
                 if pending_forever { "; an acknowledgement never completed" } else { "" })) };
         }
+        if shutdown_done.is_some() { continue; }   // (shut down: there is no quiescent running state to judge)
         // quiescence: the clock stands still, the queue drains, a few sweeps pass
         let mut snapshot = cache.verif_snapshot(&|key| *key as i64, &|value| *value as i64);
         for _ in 0..400 {
